@@ -10,20 +10,25 @@ def cell(s):
 
 def main():
     rows = ["| seed | needs | caught by | first run |", "|---|---|---|---|"]
-    n = missed = 0
+    n = missed = still = 0
     for mf in sorted(glob.glob(os.path.join(VERIF, "seeded/*/meta.json"))):
         m = json.load(open(mf))
         name = os.path.basename(os.path.dirname(mf))
         st = m.get("status", "")
         first = "caught"
-        if st.startswith("missed"):
+        if st.startswith("missed, open"):
+            missed += 1
+            still += 1
+            first = "**missed, still open**; " + st[len("missed, open:"):].strip()
+        elif st.startswith("missed"):
             missed += 1
             first = "**missed**; " + re.sub(r"^missed at first[^;(]*[;(]?\s*", "", st).rstrip(")")
         rows.append("| %s | %s | %s | %s |" % (name, cell(m.get("needs_to_manifest", "")), cell("; ".join(m.get("caught_by", []))), cell(first)))
         n += 1
     rows.append("")
     rows.append("%d seeds, %d missed by the checks as they stood when the seed arrived (each miss led to the strengthening named in its row); "
-                "all %d are caught by the current checks." % (n, missed, n))
+                "%d are caught by the current checks%s." % (n, missed, n - still,
+                                                             "" if not still else "; %d arrived too late to be closed and is recorded as an open miss in its row" % still))
     p = os.path.join(VERIF, "DESIGN.md")
     s = open(p).read()
     a, b = s.index("<!-- SEEDS-BEGIN -->"), s.index("<!-- SEEDS-END -->")
